@@ -388,8 +388,7 @@ def load_of_chunk(src, cs, j):
     """index of the first load made for chunk j of a healthy pass"""
     if not src["groups"]:
         return j
-    need, have, g = j * cs + 1, 0, 0       # the row group that holds the first row of chunk j, unless it is already buffered
-    tot = 0
+    need, tot = j * cs + 1, 0              # the row group that holds the first row of chunk j (position only: a heuristic)
     for i, gs in enumerate(src["groups"]):
         if tot + gs >= need:
             return i
